@@ -63,6 +63,15 @@ threads perform arbitrary access sequences consistent with the classification, i
                          (false at 2^63: negative index). `C11_ammo_flows_reviewed` / `C11_acquire_writes_own` cover the
                          grpc/json and scenario providers too (receiver binding).
 
+* round 6 — the whole pool, COMPOSED with C03's regenerated instance loop (`Gen.InstLoop.iterBody`, `Model/C11Pool.lean`):
+                         `C11_instloop_discipline` (every path of the loop body of `instance.Run` in the current source:
+                         Acquire, then Shoot / Release only while the ammo is held, nothing held at the end),
+                         `C11_pool_drf` (any number of instances × any number of iterations × any answers of the
+                         environment × any ammo / samples, provider and aggregator goroutines, every schedule: DRF),
+                         `C11_pool_gun_exclusive` (gun `i` is touched by thread `i` only), `C11_pool_ammo_exclusive`
+                         (between `Acquire` and `Release` nobody else touches the ammo),
+                         `C11_pool_early_release_counterexample`.
+
 The classification itself is checked against the real code by the correspondence driver (aliasing graph, write
 set of a real `Shoot`, race-detector sweep); see `Drv/C11.lean`.
 -/
@@ -71,6 +80,8 @@ import Pandora.Proofs.C11Own
 import Pandora.Proofs.C11Closure
 import Pandora.Proofs.C11Ammo
 import Pandora.Proofs.C11Index
+import Pandora.Proofs.C11Pool
+import Pandora.Gen.InstLoop
 import Pandora.Bridge.C11Locks
 import Pandora.Gen.Locks
 import Pandora.Spec.C11
@@ -835,5 +846,119 @@ theorem C11_pool_index_counterexample : ¬ C11_pool_index_statement ∧
   rw [h] at hi
   have := Option.some.inj hi
   omega
+
+section Pool
+open Pandora.Model.C11Pool Pandora.Proofs.C11Pool
+
+/-! ### round 6: the whole pool — composition with C03's regenerated instance loop -/
+
+/-- **C11_instloop_discipline**: every path of the iteration body of `(*instance).Run` as it is in the current source
+(`Gen.InstLoop.iterBody`, regenerated for C03) keeps the one-bit discipline: `Acquire` only when no ammo is held,
+`Shoot` and `Release` only while one is held, no statement C03's reader does not know, nothing held when the iteration
+function returns. -/
+theorem C11_instloop_discipline : bodyOk Pandora.Gen.InstLoop.iterBody = true := by decide
+
+/-- non-vacuity: the path on which everything succeeds really acquires, shoots and releases -/
+example : iterActs Pandora.Gen.InstLoop.iterBody true true true = [.acq, .tokOk, .reqAdd, .shoot, .respAdd, .rel] := by decide
+
+/-- **C11_pool_drf**: a whole pool. Any number of instances (`iters.length`), each running any number of iterations of
+the regenerated loop body, each iteration with its own answers of the environment, its own ammo object and any number
+of samples; any number of other goroutines (provider, aggregator) running programs that respect the ownership
+discipline; every schedule: data-race free. -/
+theorem C11_pool_drf (iters : List (List Iter)) (others : List (List OOp))
+    (hoth : ∀ (k : Nat) (ops : List OOp), others[k]? = some ops → progOk poolCls (iters.length + k) [] ops)
+    (sched : List Nat) :
+    DRF (exec (initCfgO poolCls (poolProgs Pandora.Gen.InstLoop.iterBody iters others)) sched) :=
+  C11_drf_handover_programs poolCls _ (pool_ok _ C11_instloop_discipline iters others hoth) sched
+
+/-- **C11_pool_gun_exclusive**: in every such run every access to the gun of instance `i` is made by thread `i` — the
+instance goroutine is the only caller of its gun, so no gun is ever inside two `Shoot` calls. -/
+theorem C11_pool_gun_exclusive (iters : List (List Iter)) (others : List (List OOp))
+    (hoth : ∀ (k : Nat) (ops : List OOp), others[k]? = some ops → progOk poolCls (iters.length + k) [] ops)
+    (sched : List Nat) (t i : Nat) (w : Bool) (v : Nat)
+    (hm : Ev.acc t (oGun i) w v ∈ exec (initCfgO poolCls (poolProgs Pandora.Gen.InstLoop.iterBody iters others)) sched) :
+    t = i :=
+  wf_loc_owner poolCls _ _
+    (exec_wfO poolCls sched _ (initCfgO_ok poolCls _ (pool_ok _ C11_instloop_discipline iters others hoth)))
+    t (oGun i) w v i hm (cls_gun i)
+
+/-- **C11_pool_ammo_exclusive**: from the point where instance `i` received ammo `a` (`Acquire`) until it gives it back
+(`Release`), every access to that ammo — by the gun's `Shoot`, by a provider goroutine that would reset it, by another
+instance — is instance `i`'s own: the ammo seen by one instance is never altered by another. -/
+theorem C11_pool_ammo_exclusive (iters : List (List Iter)) (others : List (List OOp))
+    (hoth : ∀ (k : Nat) (ops : List OOp), others[k]? = some ops → progOk poolCls (iters.length + k) [] ops)
+    (sched : List Nat) (pre mid post : List Ev) (i a : Nat)
+    (htr : exec (initCfgO poolCls (poolProgs Pandora.Gen.InstLoop.iterBody iters others)) sched
+             = pre ++ Ev.acq i (oAmmo a) :: (mid ++ post))
+    (hno : ∀ e ∈ mid, e ≠ Ev.rel i (oAmmo a)) (t : Nat) (w : Bool) (v : Nat)
+    (hm : Ev.acc t (oAmmo a) w v ∈ mid) : t = i := by
+  have hwf := exec_wfO poolCls sched _ (initCfgO_ok poolCls _ (pool_ok _ C11_instloop_discipline iters others hoth))
+  rw [htr] at hwf
+  have h1 := ((WF_append poolCls pre _ _).mp hwf).2
+  obtain ⟨_, h2⟩ := h1
+  have h3 := ((WF_append poolCls mid post _).mp h2).1
+  exact C11_owned_exclusive poolCls (oAmmo a) i mid _ (set_same _ _ _) h3 hno t (oAmmo a) w v hm (cls_ammo a)
+
+/-- two instances (the first: a full shot, then an iteration whose `Wait` finds the schedule finished; the second: a
+discarded shot with two samples, then out of ammo), a provider goroutine that refills ammo 0 and an aggregator that reads
+sample 0 -/
+def poolIters : List (List Iter) :=
+  [[⟨true, true, true, 0, [0]⟩, ⟨true, false, true, 1, []⟩], [⟨true, true, false, 0, [0, 1]⟩, ⟨false, true, true, 0, []⟩]]
+
+def poolOthers : List (List OOp) :=
+  [[.take (oAmmo 0), .own ⟨oAmmo 0, true, 9⟩, .give (oAmmo 0)], [.take (oSample 0), .own ⟨oSample 0, false, 0⟩, .give (oSample 0)]]
+
+/-- non-vacuity of `C11_pool_drf`: the hypotheses hold for that pool, and under a round-robin schedule (turns of a
+blocked thread are skipped) all 72 events of the four threads happen -/
+example : ∀ (k : Nat) (ops : List OOp), poolOthers[k]? = some ops → progOk poolCls (poolIters.length + k) [] ops := by
+  intro k ops h
+  apply progOk_of_progOkB
+  match k, h with
+  | 0, h => simp [poolOthers] at h; subst h; decide
+  | 1, h => simp [poolOthers] at h; subst h; decide
+  | n + 2, h => simp [poolOthers] at h
+
+example : (exec (initCfgO poolCls (poolProgs Pandora.Gen.InstLoop.iterBody poolIters poolOthers))
+    ((List.range 60).flatMap fun _ => [0, 1, 2, 3])).length = 72 := by decide
+
+/-- the loop body with the `Release` moved before the wait (an instance loop that gives its ammo back before shooting it) -/
+def earlyReleaseBody : List Pandora.Model.C03Loop.Instr :=
+  [.acquireOrReturn "ammo", .release "ammo", .waitOrReturn, .ifFire, .metricAdd "Request" 1, .shoot "ammo",
+   .metricAdd "Response" 1, .orElse, .reportDiscard, .endIf, .returnNil]
+
+/-- **C11_pool_early_release_counterexample**: such a body is rejected, its program violates the ownership discipline,
+and with a provider goroutine that takes the released ammo from the pool and decodes the next entry into it the gun
+shoots an ammo somebody else is writing: the trace is not data-race free. -/
+theorem C11_pool_early_release_counterexample :
+    bodyOk earlyReleaseBody = false ∧
+    progOkB poolCls 0 [] (instProg earlyReleaseBody 0 [⟨true, true, true, 0, []⟩]) = false ∧
+    ¬ DRF (exec (initCfgO poolCls [loopOps earlyReleaseBody 0 [⟨true, true, true, 0, []⟩],
+                                   [.take (oAmmo 0), .own ⟨oAmmo 0, true, 9⟩, .give (oAmmo 0)]])
+            [0, 0, 0, 0, 0, 1, 1, 0, 0, 0, 0, 0, 0, 0]) := by
+  refine ⟨by decide, by decide, ?_⟩
+  have htr : exec (initCfgO poolCls [loopOps earlyReleaseBody 0 [⟨true, true, true, 0, []⟩],
+                                   [.take (oAmmo 0), .own ⟨oAmmo 0, true, 9⟩, .give (oAmmo 0)]])
+            [0, 0, 0, 0, 0, 1, 1, 0, 0, 0, 0, 0, 0, 0]
+      = [.acq 0 0, .acc 0 0 false 0, .rel 0 0, .acq 0 5, .rel 0 5, .acq 1 5, .acc 1 5 true 9, .acq 0 0, .acc 0 0 true 0,
+         .rel 0 0, .acq 0 1, .acc 0 1 true 0, .rel 0 1, .acc 0 5 true 0] := by decide
+  rw [htr]
+  intro h
+  have hb := h 6 13 _ _ (by decide) rfl rfl (by simp [Conflict])
+  obtain ⟨_, hc⟩ := hb_cases _ _ _ hb
+  rcases hc with ⟨a, b, ha, hb', hab⟩ | ⟨p, q, t, t', l, hp, hpq, hq, hrel, hacq⟩
+  · simp at ha hb'
+    subst ha; subst hb'
+    simp [Ev.thread] at hab
+  · have hp' : p = 6 ∨ p = 7 ∨ p = 8 ∨ p = 9 ∨ p = 10 ∨ p = 11 ∨ p = 12 := by omega
+    rcases hp' with rfl | rfl | rfl | rfl | rfl | rfl | rfl <;> simp at hrel
+    · obtain ⟨rfl, rfl⟩ := hrel
+      have hq' : q = 10 ∨ q = 11 ∨ q = 12 ∨ q = 13 := by omega
+      rcases hq' with rfl | rfl | rfl | rfl <;> simp at hacq
+    · obtain ⟨rfl, rfl⟩ := hrel
+      have hq' : q = 13 := by omega
+      subst hq'
+      simp at hacq
+
+end Pool
 
 end Pandora.Props.C11
